@@ -161,4 +161,26 @@ example :
     buildSse2Std doc = buildAvx2Std doc ∧ buildPfsmStd doc = buildAvx2Std doc := by
   decide +kernel
 
+/-- The six lane DAGs of `classify_chars`, regenerated on this run from `src/json/simd/avx2.rs`
+(AVX2) and `src/json/simd/x86.rs` (SSE2) (Generated/C05.lean), compute for all 256 byte values the
+lane values of the hand-written `classifyLane` that `classify_eq` and the engine theorems are about. -/
+theorem lanes_generated_eq :
+    (∀ c : BitVec 8, Gen.json_classify_avx2_quotes_lane c = (classifyLane c).quotes) ∧
+    (∀ c : BitVec 8, Gen.json_classify_avx2_backslashes_lane c = (classifyLane c).backslashes) ∧
+    (∀ c : BitVec 8, Gen.json_classify_avx2_opens_lane c = (classifyLane c).opens) ∧
+    (∀ c : BitVec 8, Gen.json_classify_avx2_closes_lane c = (classifyLane c).closes) ∧
+    (∀ c : BitVec 8, Gen.json_classify_avx2_delims_lane c = (classifyLane c).delims) ∧
+    (∀ c : BitVec 8, Gen.json_classify_avx2_value_chars_lane c = (classifyLane c).valueChars) ∧
+    (∀ c : BitVec 8, Gen.json_classify_sse2_quotes_lane c = (classifyLane c).quotes) ∧
+    (∀ c : BitVec 8, Gen.json_classify_sse2_backslashes_lane c = (classifyLane c).backslashes) ∧
+    (∀ c : BitVec 8, Gen.json_classify_sse2_opens_lane c = (classifyLane c).opens) ∧
+    (∀ c : BitVec 8, Gen.json_classify_sse2_closes_lane c = (classifyLane c).closes) ∧
+    (∀ c : BitVec 8, Gen.json_classify_sse2_delims_lane c = (classifyLane c).delims) ∧
+    (∀ c : BitVec 8, Gen.json_classify_sse2_value_chars_lane c = (classifyLane c).valueChars) := by
+  repeat' constructor
+  all_goals decide
+
+example : Gen.json_classify_avx2_value_chars 0x7a#8 = true ∧ Gen.json_classify_avx2_value_chars 0x7b#8 = false := by
+  decide
+
 end SV.Props.C05
